@@ -27,7 +27,7 @@ RULE = ("history: one built-in Function class (all 33 concrete classes of Functi
         "place by the harness afterwards (as callers do); after every operation every object is asked again for every point it "
         "has cached and, with caching off, for every point evaluated at it before; every returned value is compared "
         "with eval() of a fresh instance built from the same parameters, and get_f_dict_size() with a set model after "
-        "every operation while caching is on. Non-trivial = at least one batch that contained a point which was in the "
+        "every operation - with caching on and off; deactivate_caching may occur at any position, also twice. Non-trivial = at least one batch that contained a point which was in the "
         "cache at that time, and at least one reset that was followed by a further evaluation. integral: class with an "
         "analytic integral (FunctionGeneralizedNormal excluded), parameters scaled to a drawn box (width*coefficient "
         "bounded so that two Gauss rules agree to 1e-11), kinks/borders placed left of / on the boundary of / inside / "
@@ -47,8 +47,9 @@ ASSUMPTIONS = [
     "norms, GenzProductPeak ndarrays keep a reference), the same choice for point evaluation (all paths), cache and analytic "
     "integral; observed per family in the class counters '<class>.<argument>[<form>]:copy|reference'.  The library must not "
     "modify the caller's containers.  FunctionUQNormal(2) mean/std: forms only (they define where the inner object is evaluated)",
-    "evaluation counter (get_f_dict_size) is asserted only while caching is on; it counts points passed to __call__ "
-    "(direct eval/eval_vectorized calls bypass the cache by construction and are not counted); for an object wrapped by "
+    "evaluation counter (get_f_dict_size) and point/value record (get_f_dict_points/values) = distinct points passed to "
+    "__call__ since the last reset_dictionary(), independent of deactivate_caching() (which may occur at any position of the "
+    "history, repeatedly); direct eval/eval_vectorized calls are not counted; for an object wrapped by "
     "another one the points the wrapper evaluates it at count as well (wrappers that use inner.eval instead of inner(...): "
     "FunctionShift, FunctionCompose, FunctionUQNormal2 bypass the inner cache)",
     "a single-point result belongs to the caller (callers modify it in place: value -= ... in spatiallyAdaptiveSingleDimension2) "
@@ -708,7 +709,9 @@ def _run_history(case, factory):
     # model: per object the distinct points passed to __call__ since its last reset (directly or by a wrapper)
     seen = [set() for _ in range(N)]
     caching = [True] * N
-    touched = [set() for _ in range(N)]      # pool indices the harness evaluated at this object while its caching is off
+    # (the record does not depend on the cache switch: "distinct points evaluated since the last reset"; the switch only
+    # decides whether a recorded point is looked up or evaluated again)
+    index_of = [dict((p, j) for j, p in enumerate(node_pts[i])) for i in range(N)]
 
     def model_eval(i, j):
         style = CALL_STYLE.get(names[i])
@@ -723,8 +726,7 @@ def _run_history(case, factory):
         if caching[i] and p in seen[i]:
             return
         model_eval(i, j)
-        if caching[i]:
-            seen[i].add(p)
+        seen[i].add(p)
 
     def do_single(i, j, form, tag, recheck=False, mutate=False):
         f, p, want = nodes[i]["inst"], node_pts[i][j], refs_c[alive[0]][i][j]
@@ -747,6 +749,7 @@ def _run_history(case, factory):
         if was_cached and not recheck:
             out.cls("single-cache-hit")
 
+    last_kind = [None] * N
     hit_batch = resets = evals_after_reset = inner_ops = 0
     pending_reset = [False] * N
 
@@ -768,9 +771,12 @@ def _run_history(case, factory):
             inner_ops += 1
         if kind == "single":
             j = op[1] % npts
+            p_was_recorded = pts[j] in seen[i]
             do_single(i, j, op[2], tag, mutate=len(op) > 4 and bool(op[4]))
             if not caching[i]:
-                touched[i].add(j)
+                out.cls("evaluation-after-deactivate")
+                if p_was_recorded:
+                    out.cls("recorded-point-evaluated-again-after-deactivate")
             evaluated(i)
         elif kind == "batch":
             idx = [j % npts for j in op[1]]
@@ -783,6 +789,8 @@ def _run_history(case, factory):
                 arg = np.array(plist, dtype=float).reshape(len(plist), d)
             if any(p in seen[i] for p in plist):
                 hit_batch += 1
+            if not caching[i] and plist:
+                out.cls("evaluation-after-deactivate", "batch-after-deactivate")
             got = _quiet(f, arg)
             if len(arg) != len(plist) or any([float(x) for x in q] != list(p) for q, p in zip(arg, plist)):
                 out.bad(SUB_H + "/arguments-mutated/batch", "%s: the batch passed in was modified: %s -> %s"
@@ -799,7 +807,7 @@ def _run_history(case, factory):
                 out.cls("empty-batch")
             for j in idx:
                 model_eval(i, j)
-            seen[i].update(plist)        # the library stores batch results even while caching is off (not asserted then)
+            seen[i].update(plist)        # recorded whatever the cache switch says
             if plist:
                 evaluated(i)
         elif kind in ("vec2", "vec3"):
@@ -823,33 +831,57 @@ def _run_history(case, factory):
             for j in idx.ravel():
                 model_eval(i, int(j))
         elif kind == "reset":
+            if last_kind[i] == "deact":
+                out.cls("reset-directly-after-deactivate")
+            if not caching[i]:
+                out.cls("reset-while-caching-off")
             f.reset_dictionary()
             seen[i].clear()
             resets += 1
             pending_reset[i] = True
         elif kind == "deact":
+            out.cls("deactivated", "deactivate-after-evaluations" if seen[i] else "deactivate-with-empty-record")
+            if not caching[i]:
+                out.cls("deactivate-twice")
+            if last_kind[i] == "reset":
+                out.cls("deactivate-directly-after-reset")
             f.deactivate_caching()
             caching[i] = False
-            out.cls("deactivated")
         else:
             raise ValueError(kind)
+        last_kind[i] = kind
         # after every operation: the counters of all objects; then every live object is asked again for every point it has
         # cached (a cache hit: exposes a cache entry corrupted by somebody else) and, while its caching is off, for every point
         # the harness evaluated at it before (repeated evaluation); then the counters once more
         def counters(when):
+            # evaluation counter and point / value record of every object == the distinct points evaluated since its last
+            # reset, whatever the state of its cache switch
             for k in range(N):
-                if caching[k]:
-                    n = nodes[k]["inst"].get_f_dict_size()
-                    if n != len(seen[k]):
-                        out.bad(SUB_H + "/counter/differs-from-distinct-points",
-                                "%s %s: object %d (%s).get_f_dict_size()=%d, distinct points evaluated since its last reset=%d"
-                                % (when, tag, k, names[k], n, len(seen[k])))
+                g = nodes[k]["inst"]
+                n = g.get_f_dict_size()
+                if n != len(seen[k]):
+                    out.bad(SUB_H + "/counter/differs-from-distinct-points" + ("" if caching[k] else "-caching-off"),
+                            "%s %s: object %d (%s).get_f_dict_size()=%d, distinct points evaluated since its last reset=%d (caching %s)"
+                            % (when, tag, k, names[k], n, len(seen[k]), "on" if caching[k] else "off"))
+                    return
+                rec_p, rec_v = g.get_f_dict_points(), g.get_f_dict_values()
+                if len(rec_p) != n or len(rec_v) != n or set(tuple(float(x) for x in q) for q in rec_p) != seen[k]:
+                    out.bad(SUB_H + "/point-record/differs-from-distinct-points" + ("" if caching[k] else "-caching-off"),
+                            "%s %s: object %d (%s).get_f_dict_points()=%s, evaluated since its last reset: %s"
+                            % (when, tag, k, names[k], rec_p, sorted(seen[k])))
+                    return
+                for q, v in zip(rec_p, rec_v):
+                    j = index_of[k][tuple(float(x) for x in q)]
+                    if mismatch(_as_vec(v), lambda c: (refs_c[c][k][j], below_c[c][k][j])):
+                        out.bad(SUB_H + "/value-record/differs-from-fresh-eval",
+                                "%s %s: object %d (%s) records %s at %s, fresh eval %s"
+                                % (when, tag, k, names[k], v, q, refs_c[alive[0]][k][j].tolist()))
                         return
         counters("after")
         if not out.violations:
             for k in range(N):
                 for j in range(npts):
-                    if (caching[k] and node_pts[k][j] in seen[k]) or (not caching[k] and j in touched[k]):
+                    if node_pts[k][j] in seen[k]:
                         do_single(k, j, "t", "re-check after %s: object %d" % (tag, k), recheck=True)
             counters("after the re-check following")
         if out.violations:
@@ -1277,7 +1309,7 @@ def history_strategy(tier):
         obj = st.sampled_from([0, 0, 0, 1, 1, 2, 3]) if spec["cls"] in COMPOSITE else st.just(0)
         for _ in range(nops):
             k = draw(st.sampled_from(["single", "single", "single", "batch", "batch", "batch", "batch", "vec2", "vec3",
-                                      "reset", "reset", "deact" if draw(st.integers(0, 3)) == 0 else "single"]))
+                                      "reset", "reset", "deact", "single"]))
             if k == "single":
                 ops.append([k, draw(idx), draw(form), draw(obj), draw(st.sampled_from([0, 0, 1]))])
             elif k == "batch":
@@ -1511,7 +1543,8 @@ def selftest():
         return g
     o = run_history(pcase, factory=corrupting)
     assert o.violations, "corrupted inner cache not rejected"
-    assert healthy.violations or any(sig == SUB_H + "/value/recheck-cached" for sig, _ in o.violations), o.violations
+    assert healthy.violations or any(sig in (SUB_H + "/value/recheck-cached", SUB_H + "/value-record/differs-from-fresh-eval")
+                                    for sig, _ in o.violations), o.violations
 
     good = dict(spec=dict(cls="LambdaFunction", d=1, fn="cos"), a=[0.25], b=[1.5])
 
